@@ -44,7 +44,7 @@ def oracle(tier, rng, seeds):
             for v in range(0, 65536, step):
                 ns.append((bg & ~(0xffff << lane)) | (v << lane))
     ns += [1 << k for k in range(64)] + [(1 << k) - 1 for k in range(65)]
-    ns += [random_valid_id(rng) for _ in range(2000)] + [rng.getrandbits(64) for _ in range(2000 if tier == 'quick' else 200000)]
+    ns += [random_valid_id(rng) for _ in range(2000)] + [rng.getrandbits(64) for _ in range(2000 if tier == 'quick' else 1500000)]
     for op in seeds:
         t = op.split()
         if t[0] == 'hex' and int(t[1]) >= 0:
